@@ -119,12 +119,31 @@ def run(tier, replay):
             rc_, out_ = vlib.sh(["python3", os.path.join(vlib.ROOT, "tools", "mk_ga_dataset.py"), gadir, "Mo100", "g0"], timeout=120)
             if rc_ != 0:
                 raise vlib.InfraError("mk_ga_dataset failed: " + out_[-400:])
+            # the g2 tables of the same nuclide, cut in the middle of their rows: an initialisation that is refused LATE, after the
+            # loader has accepted the header and part of the table
+            rc_, out_ = vlib.sh(["python3", os.path.join(vlib.ROOT, "tools", "mk_ga_dataset.py"), gadir, "Mo100", "g2"], timeout=120)
+            if rc_ != 0:
+                raise vlib.InfraError("mk_ga_dataset failed: " + out_[-400:])
+            for dp, _dn, fn in os.walk(gadir):
+                if os.path.basename(dp) == "g2":
+                    for f_ in fn:
+                        if f_.startswith("tab_"):
+                            ls_ = open(os.path.join(dp, f_)).read().splitlines()
+                            # another energy grid than the good table's (what a half-loaded table leaves behind must be visible)
+                            for i_, l_ in enumerate(ls_):
+                                w_ = l_.split()
+                                if len(w_) == 5 and w_[0] in ("CumulativeProbability", "Probability"):
+                                    w_[1], w_[2], w_[3] = repr(float(w_[1]) * 0.5), repr(float(w_[2]) * 0.5), repr(float(w_[3]) * 0.5)
+                                    ls_[i_] = " ".join(w_)
+                            open(os.path.join(dp, f_), "w").write("\n".join(ls_[:max(6, len(ls_) - 3)]) + "\n")
             genv = vlib.harness_env("plain")
             genv["BXDECAY0_DBD_GA_DATA_DIR"] = gadir
             gamap = {k: i for i, k in enumerate(galist)}
             gpre = [("SetCategory", "dbd"), ("SetIsotope", "Mo100"), ("SetLevel", "0"), ("SetMode", "21"), ("Initialize", "-"), ("Shoot", "-"), ("Reset", "-")]
-            jobs_ga = [("edge-cover(gA mounted) prefix=none", []), ("edge-cover(gA mounted) prefix=gA-cycle", gpre)]
-            with cf.ThreadPoolExecutor(max_workers=2) as ex:
+            glate = [("SetCategory", "dbd"), ("SetIsotope", "Mo100"), ("SetLevel", "0"), ("SetMode", "22"), ("Initialize", "-")]
+            jobs_ga = [("edge-cover(gA mounted) prefix=none", []), ("edge-cover(gA mounted) prefix=gA-cycle", gpre),
+                       ("edge-cover(gA mounted) prefix=late-failing-gA-load", glate)]
+            with cf.ThreadPoolExecutor(max_workers=3) as ex:
                 futs = []
                 for tag, pre in jobs_ga:
                     args = ["--graph", ggpath, "--cover", "--budget", str(cover_budget), "--maxlen", "3000"]
